@@ -170,13 +170,24 @@ def r4(ctx, rep):
                 ok = "Tuple" in show(c["e"]["pat"]) and show(c["e"].get("guard")) == "fields.is_empty()"
     rep.check(ok, "sort-undone", "sort_undone may be set only for a group with a non-empty key (an empty `group {}` keeps the sort)", file=fl["file"], line=g["l"], fn=fl["path"])
     rep.check(any(s == "self.sort_undone = sort_undone" for s in seq), "sort-undone-restored", "sort_undone must be restored after the group", file=fl["file"], line=g["l"], fn=fl["path"])
-    loc = [n for n in walk(fl["body"]) if n.get("k") == "local" and show(n["pat"]) == "sort" and n.get("init", {}).get("k") == "if"]
-    ok = False
-    if loc:
-        i = loc[0]["init"]
-        c = i["c"]
-        kinds = sorted(last_seg(n["p"]) for n in walk(c.get("pat", {})) if n.get("k") in ("p_struct", "p_ts", "p_path")) if c.get("k") == "macro" else []
-        ok = kinds == ["Append", "Join"] and show(tail_expr(i["t"])) == "vec!()" and show(tail_expr(i["e"])) == "self.sort.clone()"
+    # role anchor: the value given to the `sort` field of the TransformCall rebuilt for every transform
+    from synq import variant_table
+    from guards import visible_def_nodes, parents
+    par_ = parents(fl["body"])
+    ok, seen = False, None
+    for n in walk(fl["body"]):
+        if n.get("k") == "struct" and last_seg(n["p"]) == "TransformCall":
+            for fname, fv in n["f"]:
+                if fname != "sort":
+                    continue
+                v = fv
+                if v.get("k") == "path" and "::" not in v["p"]:
+                    d = visible_def_nodes(par_, n, v["p"])
+                    v = d["init"] if d is not None and d.get("init") is not None else v
+                seen = variant_table(v)
+                if seen:
+                    scrut, table, default = seen
+                    ok = sorted(table) == ["Append", "Join"] and set(table.values()) <= {"vec!()", "Vec::new()", "vec![]"} and default == "self.sort.clone()"
     rep.check(ok, "join-append-no-inherit", "only Join and Append get an empty sort; every other transform carries the current sort (take needs it)", file=fl["file"], line=fl["l"], fn=fl["path"])
     # the state `self.sort` itself must survive the folding of a Join / Append argument (a sort inside the argument assigns it)
     ok = False
